@@ -29,10 +29,37 @@ from pathlib import Path
 import numpy as np
 import torch
 
-from mc.core import Acc, exc_text, guarded, h64
+from mc.core import Acc, h64
+from mc.core import exc_text as _exc_text
+from mc.core import guarded as _guarded
 from ref import flowfield as ff
 from ref import grid as rg
 from ref.grid import AXES, WORLD, RefGrid
+
+
+def guarded(fn, *a, **kw):
+    """mc.core.guarded + defusing of the caught exception: its text (with the deepali file:line) is computed at once and
+    the traceback frames are cleared immediately. Otherwise the frames of the failed library call (e.g. a BytesIO with an
+    exported memoryview inside the MetaImage reader) stay alive until the cyclic garbage collector frees them in
+    arbitrary order, which was seen to crash the interpreter (segmentation fault during GC) on a mutated tree."""
+    import traceback
+
+    st, v = _guarded(fn, *a, **kw)
+    if st == "raises":
+        try:
+            v._verif_text = _exc_text(v)
+            traceback.clear_frames(v.__traceback__)
+        except Exception:  # noqa: BLE001
+            pass
+        v.__traceback__ = None
+        v.__context__ = None
+        v.__cause__ = None
+    return st, v
+
+
+def exc_text(e):
+    return getattr(e, "_verif_text", None) or _exc_text(e)
+
 
 PROPERTY = "C18"
 RULE = (
@@ -49,9 +76,9 @@ ASSUMPTIONS = [
     "values must be equal exactly and the returned dtype must be the stored dtype (all five listed dtypes are native in every listed format)",
     "sizes <= 7 per axis; .nia is excluded (neither nibabel nor SimpleITK handle it)",
 ]
-MIN_NONTRIVIAL = {"quick": 9000, "thorough": 35000}
-MIN_OUTCOMES = {"quick": 900, "thorough": 3800}
-MIN_SUB_TRACES = {"d2d": 4500, "s2d": 4500, "flow": 800}
+MIN_NONTRIVIAL = {"quick": 7500, "thorough": 35000}
+MIN_OUTCOMES = {"quick": 800, "thorough": 3800}
+MIN_SUB_TRACES = {"d2d": 3600, "s2d": 3600, "flow": 600}
 
 EPS32 = 2.0 ** -23
 C = 64.0  # computed quantities (flow vector conversions)
@@ -98,6 +125,11 @@ def grid_spec(D, size, gk, seed):
 GRID_KINDS = ("default", "perm", "rot", "scan", "fine")
 
 
+def grid_kinds(tier):
+    """Quick tier: 4 kinds ('fine' carries the signed permutation, 'scan' and 'rot' the generic rotation); thorough: all 5."""
+    return GRID_KINDS if tier == "thorough" else ("default", "rot", "scan", "fine")
+
+
 def configs(tier, seed):
     out = []
     for fmt in formats(tier):
@@ -105,7 +137,7 @@ def configs(tier, seed):
             for Cn in (1, 2, 3):
                 for dt in NP_DT:
                     for size in sizes(D, tier):
-                        for gk in GRID_KINDS:
+                        for gk in grid_kinds(tier):
                             for compress in (True, False):
                                 out.append({"fmt": fmt, "D": D, "C": Cn, "dt": dt, "size": list(size), "gk": gk,
                                             "grid": grid_spec(D, size, gk, seed), "compress": compress, "seed": seed})
@@ -114,7 +146,7 @@ def configs(tier, seed):
 
 def bounds(tier):
     return {
-        "formats": formats(tier), "D": [2, 3], "channels": [1, 2, 3], "dtypes": list(NP_DT), "grids": list(GRID_KINDS),
+        "formats": formats(tier), "D": [2, 3], "channels": [1, 2, 3], "dtypes": list(NP_DT), "grids": list(grid_kinds(tier)),
         "compress": [True, False], "sizes": {"2": [list(s) for s in sizes(2, tier)], "3": [list(s) for s in sizes(3, tier)]},
         "configurations": len(configs(tier, 0)), "chains": ["d2d", "s2d", "flow"],
         "entry_points": ["write_image/read_image", "Image.write/Image.read", "Image.to_uri/Image.from_uri", "Grid.from_file", "FlowField.write/read"],
